@@ -518,8 +518,14 @@ class _Pool:
         H = gens.herm(case["H"])
         w = case["w"]
         self.H = H
-        self.system = oqupy.System(H, gammas=[0.1], lindblad_operators=[sig("-")])
-        self.system_plain = oqupy.System(H)          # GibbsTempo refuses systems with Markovian decay
+        # the systems are built from a buffer the caller owns (complex128, C-ordered: the case in which a conversion
+        # without copy aliases it) and the caller overwrites that buffer afterwards (seeded change s13-C20)
+        Hc = np.array(H, dtype=np.complex128)
+        self.system = oqupy.System(Hc, gammas=[0.1], lindblad_operators=[sig("-")])
+        self.system_plain = oqupy.System(Hc)          # GibbsTempo refuses systems with Markovian decay
+        Hc[...] = 7.25
+        self.follows_buffer = [nm for nm, s_ in (("system", self.system), ("system_plain", self.system_plain))
+                               if not np.array_equal(np.asarray(s_.hamiltonian), H)]
         self.tdsys = oqupy.TimeDependentSystem(lambda t: H + 0.3 * np.cos(w * t) * sig("x"),
                                                gammas=[lambda t: 0.1 + 0.05 * np.sin(w * t)], lindblad_operators=[lambda t: sig("-")])
         sp, sm = sig("+"), sig("-")
@@ -633,6 +639,12 @@ def run_shared(case):
     pool = _Pool(case)
     seen = {}
     reuse = False
+    out.label("construction-buffer-overwritten")
+    if pool.follows_buffer:
+        out.fail(f"object-follows-callers-buffer:{pool.follows_buffer[0]}",
+                 f"{pool.follows_buffer}: hamiltonian changed when the caller overwrote the array it had been constructed from")
+        out.nontrivial = True
+        return out
     pure_bond = any(case["sites"][i]["kind"] == "none" and case["sites"][i + 1]["kind"] == "none" for i in range(len(case["sites"]) - 1))
     out.label("bond-without-site-terms" if pure_bond else "all-bonds-have-site-terms", f"sites={len(case['sites'])}")
     for i, op in enumerate(case["ops"]):
